@@ -10,7 +10,7 @@ FILTER_CMDS = ("CancelOrders", "ClosePositions")
 C03_PROPS = {"P:SentDelivered", "P:SentInFlight", "P:FailedNeither", "P:NoPhantomInFlight", "P:DisabledSilent"}
 C03_COMPONENTS = {"orders", "tick_outputs", "tick_flags", "dl", "trading", "net", "priced"}
 C19_TAGS = {"orders", "tick_outputs", "dl", "net", "P:Scope"}
-C14_TAGS = {"conn", "P:ConnStep", "P:ConnIff"}
+C14_TAGS = {"conn", "P:ConnStep", "P:ConnIff", "on_disconnect_calls"}
 C10_TAGS = {"tick_seq"}
 
 
